@@ -501,3 +501,127 @@ Proof.
 Qed.
 Lemma pddiv_min_neg1 : pddiv (- 2 ^ 127) (-1) = Ok (2 ^ 127 - 1).
 Proof. reflexivity. Qed.
+
+(* ------------------------------------------------------------------ *)
+(* combined statements used by Props/C32.v                             *)
+
+Lemma tsub_shortest_difference : forall a b,
+  in_i64 (tsub a b) /\
+  (exists k, tsub a b = (a - b) + k * 2 ^ 64) /\
+  (forall k, Z.abs (tsub a b) <= Z.abs ((a - b) + k * 2 ^ 64)) /\
+  (forall d, in_i64 d -> (exists k, d = (a - b) + k * 2 ^ 64) -> d = tsub a b).
+Proof.
+  intros a b. split; [apply tsub_range|]. split; [apply tsub_congruent|].
+  split; [intro k; apply tsub_shortest|]. intros d Hd Hk. apply tsub_unique; assumption.
+Qed.
+
+Lemma tsub_add_back : forall a b, in_u64 a -> in_u64 b ->
+  tadd b (tsub a b) = a /\ tsubd a (tsub a b) = b.
+Proof. intros a b Ha Hb. split; [apply tadd_tsub|apply tsubd_tsub]; assumption. Qed.
+
+Lemma tadd_then_tsub : forall t d, in_u64 t -> in_i64 d ->
+  in_u64 (tadd t d) /\ in_u64 (tsubd t d) /\
+  tsub (tadd t d) t = d /\ tsubd (tadd t d) d = t.
+Proof.
+  intros t d Ht Hd. split; [apply tadd_range|]. split; [apply tsubd_range|].
+  split; [apply tsub_tadd; assumption|apply tsubd_tadd; assumption].
+Qed.
+
+Lemma duration_ops_saturate : forall a b k,
+  saturates_i64 (a + b) (dadd a b) /\ saturates_i64 (a - b) (dsub a b) /\
+  saturates_i64 (a * k) (dmul a k) /\
+  no_wrap (a + b) (dadd a b) /\ no_wrap (a - b) (dsub a b) /\ no_wrap (a * k) (dmul a k).
+Proof.
+  intros. split; [apply sat_i64_saturates|]. split; [apply sat_i64_saturates|].
+  split; [apply sat_i64_saturates|]. split; [apply sat_i64_no_wrap|].
+  split; apply sat_i64_no_wrap.
+Qed.
+
+Lemma neg_abs_saturate : forall a,
+  saturates_i64 (- a) (dneg a) /\ saturates_i64 (Z.abs a) (dabs a) /\
+  0 <= dabs a /\ no_wrap (- a) (dneg a).
+Proof.
+  intros. split; [apply sat_i64_saturates|]. split; [apply sat_i64_saturates|].
+  split; [apply dabs_nonneg|apply sat_i64_no_wrap].
+Qed.
+
+Lemma abs_diff_saturates : forall a b, in_i64 a -> in_i64 b ->
+  saturates_i64 (Z.abs (a - b)) (dabs_diff a b) /\ 0 <= dabs_diff a b.
+Proof.
+  intros a b Ha Hb. unfold dabs_diff, dabs, dsub, saturates_i64. unfold_ranges. pows. lia.
+Qed.
+
+Lemma div_saturates_and_panics_only_on_zero : forall a k,
+  (k <> 0 -> exists r, ddiv a k = Ok r /\ saturates_i64 (Z.quot a k) r) /\
+  ((exists s, ddiv a k = Panic s) <-> k = 0) /\
+  (in_i64 a -> k <> 0 -> ~ (a = - 2 ^ 63 /\ k = -1) -> ddiv a k = Ok (Z.quot a k)).
+Proof.
+  intros a k. split; [apply ddiv_saturates|]. split; [apply ddiv_panic_iff|apply ddiv_exact].
+Qed.
+
+(* the operations of the unrepaired code do not saturate: the witness is i64::MIN *)
+Lemma unrepaired_neg_abs_div_refuted :
+  (exists a, in_i64 a /\ ~ saturates_i64 (- a) (dneg_wrap a)) /\
+  (exists a, in_i64 a /\ ~ saturates_i64 (Z.abs a) (dabs_wrap a) /\ dabs_wrap a < 0) /\
+  (exists a k, in_i64 a /\ k <> 0 /\ exists s, ddiv_unrepaired a k = Panic s).
+Proof.
+  split; [|split].
+  - exists (- 2 ^ 63). split; [unfold in_i64; pows; lia|].
+    intros [_ [H _]]. specialize (H ltac:(pows; lia)). vm_compute in H. discriminate.
+  - exists (- 2 ^ 63). split; [unfold in_i64; pows; lia|]. split.
+    + intros [_ [H _]]. specialize (H ltac:(pows; lia)). vm_compute in H. discriminate.
+    + vm_compute. reflexivity.
+  - exists (- 2 ^ 63), (-1). split; [unfold in_i64; pows; lia|]. split; [lia|].
+    exists 2. reflexivity.
+Qed.
+
+Lemma wire_formats_roundtrip :
+  (forall d, 0 <= d < 2 ^ 48 ->
+     exists w, d_to_short d = Ok w /\ in_u32 w /\ d_from_short w <= d < d_from_short w + 2 ^ 16) /\
+  (forall d, 0 <= d < 2 ^ 36 ->
+     exists w, d_to_time32 d = Ok w /\ in_u32 w /\ d_from_time32 w <= d < d_from_time32 w + 2 ^ 4) /\
+  (forall w, in_u32 w -> d_to_short (d_from_short w) = Ok w /\ d_to_time32 (d_from_time32 w) = Ok w) /\
+  (forall d, 2 ^ 48 <= d -> d_to_short d = Ok (2 ^ 32 - 1)) /\
+  (forall d, 2 ^ 36 <= d -> d_to_time32 d = Ok (2 ^ 32 - 1)) /\
+  (forall d, ((exists s, d_to_short d = Panic s) <-> d < 0) /\
+             ((exists s, d_to_time32 d = Panic s) <-> d < 0)).
+Proof.
+  split; [exact short_roundtrip|]. split; [exact time32_roundtrip|].
+  split; [intros w Hw; split; [apply short_decode_encode|apply time32_decode_encode]; assumption|].
+  split; [exact short_saturates|]. split; [exact time32_saturates|].
+  intro d. split; [apply short_panic_iff|apply time32_panic_iff].
+Qed.
+
+Lemma poll_ops_saturate : forall p lmin lmax, in_i8 p -> in_i8 lmin -> in_i8 lmax ->
+  (in_i8 (poll_inc p lmax) /\ poll_inc p lmax <= lmax /\
+   (p < lmax -> poll_inc p lmax = p + 1) /\ (lmax <= p -> poll_inc p lmax = lmax)) /\
+  (in_i8 (poll_dec p lmin) /\ lmin <= poll_dec p lmin /\
+   (lmin < p -> poll_dec p lmin = p - 1) /\ (p <= lmin -> poll_dec p lmin = lmin)) /\
+  (in_i8 (poll_force_inc p) /\ p <= poll_force_inc p /\
+   (p < 127 -> poll_force_inc p = p + 1) /\ (p = 127 -> poll_force_inc p = 127)) /\
+  (1 <= poll_as_duration p <= 2 ^ 62 /\ (-32 <= p <= 30 -> poll_as_duration p = 2 ^ (p + 32))).
+Proof.
+  intros p lmin lmax Hp Hmin Hmax.
+  split; [apply poll_inc_spec; assumption|]. split; [apply poll_dec_spec; assumption|].
+  split; [apply poll_force_inc_spec; assumption|apply poll_as_duration_range; assumption].
+Qed.
+
+Lemma ptp_laws : forall a b k,
+  (* wrapping timestamps *)
+  (in_i128 (ptsub a b) /\ (exists j, ptsub a b = (a - b) + j * 2 ^ 128) /\
+   (forall j, Z.abs (ptsub a b) <= Z.abs ((a - b) + j * 2 ^ 128))) /\
+  (in_u128 a -> in_u128 b -> ptadd b (ptsub a b) = a /\ ptsubd a (ptsub a b) = b) /\
+  (in_i128 b -> ptsub (ptadd a b) a = b) /\
+  (* saturating durations *)
+  saturates_i128 (a + b) (pdadd a b) /\ saturates_i128 (a - b) (pdsub a b) /\
+  saturates_i128 (a * k) (pdmul a k) /\
+  (k <> 0 -> exists r, pddiv a k = Ok r /\ saturates_i128 (Z.quot a k) r) /\
+  ((exists s, pddiv a k = Panic s) <-> k = 0).
+Proof.
+  intros a b k.
+  split. { split; [apply ptsub_range|]. split; [apply ptsub_congruent|intro j; apply ptsub_shortest]. }
+  split. { intros Ha Hb. split; [apply ptadd_ptsub|apply ptsubd_ptsub]; assumption. }
+  split. { apply ptsub_ptadd. }
+  split; [apply sat_i128_saturates|]. split; [apply sat_i128_saturates|].
+  split; [apply sat_i128_saturates|]. split; [apply pddiv_saturates|apply pddiv_panic_iff].
+Qed.
